@@ -3,6 +3,7 @@ import itertools as it
 from montepy.constants import ASCII_CEILING
 from montepy.utilities import *
 import os
+import shutil
 
 
 class MCNP_InputFile:
@@ -31,6 +32,7 @@ class MCNP_InputFile:
         self._overwrite = overwrite
         self._mode = None
         self._fh = None
+        self._temp_path = None
 
     @make_prop_pointer("_path")
     def path(self):
@@ -111,6 +113,14 @@ class MCNP_InputFile:
                 raise IsADirectoryError(
                     f"{self.path} is a directory, and cannot be overwritten."
                 )
+            # write to a temporary file next to the destination, which only replaces
+            # the destination once everything has been written without an error.
+            directory, base = os.path.split(os.path.abspath(self.path))
+            self._temp_path = os.path.join(directory, f".{base}.{os.getpid()}.tmp")
+            self._fh = open(self._temp_path, mode, encoding=encoding)
+            if os.path.isfile(self.path):
+                shutil.copymode(self.path, self._temp_path)
+            return self
         self._fh = open(self.path, mode, encoding=encoding)
         return self
 
@@ -121,6 +131,13 @@ class MCNP_InputFile:
     def __exit__(self, exc_type, exc_val, exc_tb):
         status = self._fh.__exit__(exc_type, exc_val, exc_tb)
         self._fh = None
+        if self._temp_path is not None:
+            temp_path = self._temp_path
+            self._temp_path = None
+            if exc_type is None:
+                os.replace(temp_path, self.path)
+            else:
+                os.remove(temp_path)
         return status
 
     def __iter__(self):
